@@ -2,6 +2,7 @@ import FiberModel.C05.Lemmas
 import FiberModel.C05.SchedLemmas
 import FiberModel.C05.Values
 import FiberModel.C05.Facts
+import FiberModel.C05.StoreLemmas
 /-
 C05 — property theorems.
 
@@ -35,6 +36,79 @@ theorem fields_reset_or_overwritten :
     Facts.ctxFields.all (FieldFact.accounted Facts.lifecycle) = true ∧
     Facts.redirectFields.all (fun f => f.release.overwrites || emptiesSlice f.release) = true ∧
     theFacts.ok = true := by decide
+
+/-! ### Shared objects outside the pooled context (`Facts.sharedObjects`, regenerated)
+
+The fields of `DefaultCtx` / `Redirect` are not the only way from one request to the next: anything hanging off
+`*App`, any package-level variable, any pool a handler-time function takes objects from does the same (the
+`App.sendfiles` miss). The translator lists ALL fields of `App`, ALL package-level variables of the anchored files
+and all foreign pools used from the anchored files, each with the functions that write it. Every object that is
+written at all must be known here, with every one of its writers, and say where its isolation argument is. -/
+
+inductive SharedWhy where
+  | ctxPool        -- App.pool: every pooled context is wiped by Reset / release (`ctxFields`, life-cycle facts, `poolOpsConfined`)
+  | redirectPool   -- redirectPool: every pooled Redirect is reset by `Redirect.release` (`redirectFields`)
+  | memoTable      -- App.sendfiles: transparent memo table (`sendFileCompared`, `sendFileStoresOwnConfig`; `probe_independent_of_history_with_store`)
+  | startup        -- written by construction / registration / startup functions only (`New`, `init`, `addRoute`, `buildTree`, `mount`, `Register…`); registering routes while serving is state the application shares on purpose
+  | foreignPool    -- a pool outside the anchored files: its own package wipes the object (binder: `Reset()` on Put and every field set before use; bytebufferpool: `Reset()` on Put); not modelled, exercised by the reflective vector
+  deriving DecidableEq, Repr
+
+structure SharedRule where
+  owner : String
+  name : String
+  writers : List String
+  why : SharedWhy
+
+def sharedRules : List SharedRule := [
+  ⟨"App", "pool", ["App.AcquireCtx", "App.ReleaseCtx", "New"], .ctxPool⟩,
+  ⟨"package", "redirectPool", ["AcquireRedirect", "ReleaseRedirect"], .redirectPool⟩,
+  ⟨"App", "sendfiles", ["DefaultCtx.SendFile"], .memoTable⟩,
+  ⟨"App", "server", ["App.NewCtxFunc", "App.init"], .startup⟩,
+  ⟨"App", "getBytes", ["New"], .startup⟩,
+  ⟨"App", "getString", ["New"], .startup⟩,
+  ⟨"App", "hooks", ["New"], .startup⟩,
+  ⟨"App", "latestRoute", ["App.addRoute"], .startup⟩,
+  ⟨"App", "newCtxFunc", ["App.NewCtxFunc"], .startup⟩,
+  ⟨"App", "tlsHandler", ["App.SetTLSHandler"], .startup⟩,
+  ⟨"App", "mountFields", ["App.appendSubAppLists", "App.generateAppListKeys", "App.mount", "Group.mount", "New"], .startup⟩,
+  ⟨"App", "state", ["New"], .startup⟩,
+  ⟨"App", "stack", ["App.addRoute", "App.processSubAppsRoutes", "New"], .startup⟩,
+  ⟨"App", "treeStack", ["App.buildTree", "New"], .startup⟩,
+  ⟨"App", "customBinders", ["App.RegisterCustomBinder"], .startup⟩,
+  ⟨"App", "customConstraints", ["App.RegisterCustomConstraint"], .startup⟩,
+  ⟨"App", "config", ["App.handleTrustedProxy", "New"], .startup⟩,
+  ⟨"App", "configured", ["New"], .startup⟩,
+  ⟨"App", "routesRefreshed", ["App.addRoute", "App.buildTree", "App.processSubAppsRoutes"], .startup⟩,
+  ⟨"foreign", "binder.CBORBinderPool", ["Bind.CBOR"], .foreignPool⟩,
+  ⟨"foreign", "binder.CookieBinderPool", ["Bind.Cookie"], .foreignPool⟩,
+  ⟨"foreign", "binder.FormBinderPool", ["Bind.Form"], .foreignPool⟩,
+  ⟨"foreign", "binder.HeaderBinderPool", ["Bind.Header"], .foreignPool⟩,
+  ⟨"foreign", "binder.JSONBinderPool", ["Bind.JSON"], .foreignPool⟩,
+  ⟨"foreign", "binder.QueryBinderPool", ["Bind.Query"], .foreignPool⟩,
+  ⟨"foreign", "binder.RespHeaderBinderPool", ["Bind.RespHeader"], .foreignPool⟩,
+  ⟨"foreign", "binder.URIBinderPool", ["Bind.URI"], .foreignPool⟩,
+  ⟨"foreign", "binder.XMLBinderPool", ["Bind.XML"], .foreignPool⟩,
+  ⟨"foreign", "bytebufferpool", ["DefaultCtx.Links", "DefaultCtx.Render", "DefaultCtx.String", "DefaultCtx.getLocationFromRoute",
+                                 "Redirect.Route"], .foreignPool⟩
+]
+
+/-- an object nobody writes is a constant; a written one must be known, with every one of its writers -/
+def SharedObj.accounted (o : SharedObj) : Bool :=
+  o.writers.isEmpty ||
+  sharedRules.any fun r => r.owner == o.owner && r.name == o.name && o.writers.all r.writers.contains
+
+/-- **Obligation over the regenerated inventory.** Every field of `App`, every package-level variable of the
+    anchored files and every foreign pool used from them is either never written or known with all its writers.
+    A new lazily filled cache on `App`, a new package-level pool, a handler-time function that starts writing an
+    existing field, a new foreign pool in a context accessor: all break this. -/
+theorem shared_objects_accounted : Facts.sharedObjects.all SharedObj.accounted = true := by decide
+
+/-- the three objects that ARE written while serving are there (the obligation is not vacuous) … -/
+example : (Facts.sharedObjects.filter fun o => o.name == "pool" || o.name == "redirectPool" || o.name == "sendfiles").length = 3 := by decide
+/-- … and sharp: an unknown cache on `App`, or a known field with a new writer, is not accounted for -/
+example : SharedObj.accounted ⟨"App", "hostCache", "map[string]string", ["DefaultCtx.Hostname"]⟩ = false := by decide
+example : SharedObj.accounted ⟨"App", "config", "Config", ["App.handleTrustedProxy", "DefaultCtx.Host", "New"]⟩ = false := by decide
+example : SharedObj.accounted ⟨"foreign", "headerParamPool", "pool", ["DefaultCtx.Accepts"]⟩ = false := by decide
 
 /-- `Params` reads slot i of `c.values` only for i below the number of parameters of the matched
     route, and `getMatch` has written exactly those slots: whatever an earlier request left in the
@@ -210,6 +284,43 @@ theorem history_as_schedule {F : RFacts} (ok : F.ok = true) (hist : List (Req ×
     simp only [histEvents, runSched_append, step_as_schedule ok, runHistory]
     exact ih _ _ _
 
+/-! ### The world including the app-level memo table `App.sendfiles` (`Store.lean`)
+
+`probeAfterS` / `runSchedS` thread the store itself through every `SendFile` action: a call is served with the
+first entry `compareConfig` accepts among the entries EARLIER requests left behind, and appends one on a miss. -/
+
+/-- **Main theorem, sequential, store included.** For every table digest in order (which includes: `compareConfig`
+    compares every field of the `SendFile` struct), every history with arbitrary pool choices — whatever entries
+    its `SendFile` calls have put into `App.sendfiles` — and every probe: the probe's observation, served from
+    the pools AND the store the history left behind, equals its observation on a fresh application (empty pools,
+    empty store). -/
+theorem probe_independent_of_history_with_store {F : RFacts} (ok : F.ok = true) (hist : List (Req × Pick))
+    (probe : Req) (pk : Pick) :
+    probeAfterS F hist probe pk = probeFreshS F probe := by
+  rw [probeAfterS_eq (ok_sfComplete ok), probeFreshS_eq (ok_sfComplete ok)]
+  exact probe_independent_of_history ok hist probe pk
+
+/-- … in particular for the tables regenerated from the current sources. -/
+theorem probe_independent_of_history_with_store_current (hist : List (Req × Pick)) (probe : Req) (pk : Pick) :
+    probeAfterS theFacts hist probe pk = probeFreshS theFacts probe :=
+  probe_independent_of_history_with_store fields_reset_or_overwritten.2.2 hist probe pk
+
+/-- **Main theorem, schedules, store included.** In every schedule of the atomic steps of any number of
+    overlapping requests — where every `SendFile` action reads and extends the one store shared by all of them,
+    and duplicate appends of requests that missed at the same time may happen at any point — every request that
+    finishes observed exactly what it observes as the only request of a fresh application. -/
+theorem finished_independent_of_schedule_with_store {F : RFacts} (ok : F.ok = true) (evs : List EvS)
+    (id : Nat) (rq : Req) (o : Obs) (h : (id, rq, o) ∈ (runSchedS F CWorldS.empty evs).c.finished) :
+    some o = probeFreshS F rq := by
+  rw [(runSchedS_eq (ok_sfComplete ok) evs (ws := CWorldS.empty) wf_nil).1] at h
+  rw [probeFreshS_eq (ok_sfComplete ok)]
+  exact finished_independent_of_schedule ok _ id rq o h
+
+/-- the store-threaded semantics is the store-free one whenever the comparison is complete (so the theorems
+    above and the ones about `probeAfter` / `runSched` speak about the same observations) -/
+theorem store_semantics_coincide {F : RFacts} (ok : F.ok = true) (hist : List (Req × Pick)) (probe : Req) (pk : Pick) :
+    probeAfterS F hist probe pk = probeAfter F hist probe pk := probeAfterS_eq (ok_sfComplete ok) hist probe pk
+
 /-! ### Non-vacuity and sharpness
 
 The examples run on `refFacts`, a fixed digest (what the tables say at the time of writing), so that they
@@ -278,6 +389,43 @@ example : (probeAfter { refFacts with rBaseURI := false } demoHist demoProbe ⟨
 example : (probeAfter { refFacts with lBind := false, lRedirect := false } demoHist ⟨b "GET", b "/q", b "h.example.com", [(b "n", b "x")], none, 0, [.bq]⟩ ⟨0, 0⟩).map
       (fun o => o.resp.status)
     = some 400 := by decide
+
+/-! ### Non-vacuity and sharpness, store -/
+
+/-- history: `SendFile(f.txt, {MaxAge: 3600})`; probe: `SendFile(f.txt, {MaxAge: 0})` -/
+def sfHist : List (Req × Pick) :=
+  [(⟨b "GET", b "/plain", b "h.example.com", [], none, 0, [.sf ⟨0, false, false, false, 0, 3600⟩ 0]⟩, ⟨0, 0⟩)]
+
+def sfProbe : Req := ⟨b "GET", b "/plain", b "h.example.com", [], none, 0, [.sf ⟨0, false, false, false, 0, 0⟩ 0]⟩
+
+/-- the history really leaves an entry in the store, and the probe (a different configuration) adds its own -/
+example : (runHistoryS refFacts WorldS.empty sfHist).sfs.length = 1 ∧
+    (stepS refFacts (runHistoryS refFacts WorldS.empty sfHist) sfProbe ⟨0, 0⟩).1.sfs.length = 2 := by decide
+
+/-- the probe is served without Cache-Control, as on a fresh app -/
+example : (probeAfterS refFacts sfHist sfProbe ⟨0, 0⟩).map (fun o => (o.resp.status, o.resp.cacheControl)) = some (200, []) := by decide
+
+/-- Sharpness: with a comparison that forgets `MaxAge` (the digest is then NOT in order) the probe finds the
+    history's entry in the store and answers with the earlier request's `Cache-Control` — while on a fresh app
+    it sends none -/
+example : (probeAfterS { refFacts with sfMask := ⟨true, true, true, true, true, false⟩ } sfHist sfProbe ⟨0, 0⟩).map
+      (fun o => o.resp.cacheControl) = some (b "public, max-age=3600") ∧
+    (probeFreshS { refFacts with sfMask := ⟨true, true, true, true, true, false⟩ } sfProbe).map
+      (fun o => o.resp.cacheControl) = some [] := by decide
+
+example : ({ refFacts with sfMask := ⟨true, true, true, true, true, false⟩ } : RFacts).ok = false := by decide
+
+/-- two overlapping requests with the same new configuration, a duplicate append in between, then the probe
+    with another configuration: three entries in the store, the probe unaffected -/
+def sfSched : List EvS :=
+  [.ev (.acquire 1 sfHist.head!.1 ⟨0, 0⟩), .ev (.enter 1 0), .ev (.acquire 2 sfProbe ⟨0, 0⟩), .ev (.enter 2 0),
+   .ev (.act 1 0), .dupAppend ⟨0, false, false, false, 0, 3600⟩, .ev (.act 2 0), .ev (.done 1 0), .ev (.done 2 0)]
+
+example : (runSchedS refFacts CWorldS.empty sfSched).sfs.length = 3 ∧
+    (obsOf (runSchedS refFacts CWorldS.empty sfSched).c 2).map (fun o => o.resp.cacheControl) = some [] := by decide
+
+example : (obsOf (runSchedS { refFacts with sfMask := ⟨true, true, true, true, true, false⟩ } CWorldS.empty sfSched).c 2).map
+    (fun o => o.resp.cacheControl) = some (b "public, max-age=3600") := by decide
 
 /-! ### Non-vacuity and sharpness, schedules -/
 
